@@ -306,6 +306,10 @@ def canon(e, ren=None):
             # `a.checked_mul(b)?` is `a * b` on the path where the `?` does not leave (the overflow case is the
             # try-err path of the enumeration)
             return c({"k": "Binary", "op": _CHECKED[inner["name"]], "l": inner["recv"], "r": inner["args"][0]})
+        if inner.get("k") == "MethodCall" and inner.get("name") == "get" and len(inner.get("args") or []) == 1 and \
+                ("[" in str(inner.get("recv_ty", "")) or "Vec<" in str(inner.get("recv_ty", ""))):
+            # `v.get(i)?` is `v[i]` on the path where the `?` stays (the out-of-range case is the try-err path)
+            return "%s[%s]" % (c(inner["recv"]), c(inner["args"][0]))
         return "%s?" % c(e["e"])
     if k == "Ret":
         return "return %s" % c(e.get("e"))
@@ -456,8 +460,9 @@ class PathOut:
 
 
 class Enumerator:
-    def __init__(self, ren=None, max_paths=40000, opaque_macros=("println", "print", "eprintln", "debug_assert", "debug_assert_eq", "trace")):
+    def __init__(self, ren=None, max_paths=40000, opaque_macros=("println", "print", "eprintln", "debug_assert", "debug_assert_eq", "trace"), combinators=False):
         self.ren = ren
+        self.combinators = combinators     # read Option::map / and_then / map_or / or_else as the branches they are
         self.max_paths = max_paths
         self.count = 0
         self.opaque_macros = set(opaque_macros)
@@ -485,6 +490,11 @@ class Enumerator:
         e0 = e
         e = peel(e)
         k = e.get("k")
+        if self.combinators and k == "MethodCall" and e.get("name") in ("map", "and_then", "map_or", "map_or_else", "or_else") \
+                and "Option<" in str(e.get("recv_ty", "")):
+            r = self.x_OptionCombinator(e)
+            if r is not None:
+                return r
         m = getattr(self, "x_" + k, None)
         if m is not None:
             return m(e)
@@ -503,6 +513,66 @@ class Enumerator:
                 res.append(PathOut(evs, "fall", v, valnode=e))
             else:
                 res.append(o)
+        return res
+
+    def x_OptionCombinator(self, e):
+        """`opt.map(|p| b)`, `and_then`, `map_or(d, |p| b)`, `map_or_else(|| d, |p| b)`, `or_else(|| b)` as an
+        `if let Some(p) = opt { .. } else { .. }`: the same decision events as the statement forms produce."""
+        name = e["name"]
+        args = [peel(a) for a in e.get("args") or []]
+        clos = [a for a in args if a.get("k") == "Closure"]
+        if name in ("map", "and_then", "or_else") and (len(args) != 1 or len(clos) != 1):
+            return None
+        if name == "map_or" and (len(args) != 2 or args[1].get("k") != "Closure"):
+            return None
+        if name == "map_or_else" and (len(args) != 2 or len(clos) != 2):
+            return None
+
+        def body_paths(clo):
+            outs = []
+            for o in self.expr(clo["body"]):
+                if o.exit == "return":
+                    o = PathOut(o.events, "fall", o.val, None, o.valnode)
+                outs.append(o)
+            return outs
+        res = []
+        for ro in self.expr(e["recv"]):
+            if ro.exit != "fall":
+                res.append(ro)
+                continue
+            X = ro.val
+            some_clo = args[-1] if name != "or_else" else None
+            pat = "Some(%s)" % (pat_canon(some_clo["params"][0], self.ren) if some_clo is not None and some_clo.get("params") else "_")
+            ev_some = Ev("letcond", pat, X, True, node=e)
+            ev_none = Ev("letcond", pat, X, False, node=e)
+            pre = ro.events
+            # eager default of map_or is evaluated before the decision
+            dflt = None
+            if name == "map_or":
+                dflt = self.expr(args[0])
+            if name in ("map", "and_then", "map_or", "map_or_else"):
+                for o in body_paths(some_clo):
+                    self._budget()
+                    val = ("Some(%s)" % o.val) if name == "map" and o.exit == "fall" else o.val
+                    if dflt is not None:
+                        for d in dflt:
+                            if d.exit == "fall":
+                                res.append(PathOut(pre + d.events + [ev_some] + o.events, o.exit, val, o.label, e))
+                    else:
+                        res.append(PathOut(pre + [ev_some] + o.events, o.exit, val, o.label, e))
+                if name in ("map", "and_then"):
+                    res.append(PathOut(pre + [ev_none], "fall", "None", None, e))
+                elif name == "map_or":
+                    for d in dflt:
+                        res.append(PathOut(pre + d.events + [ev_none], d.exit, d.val, d.label, e))
+                else:
+                    for d in body_paths(args[0]):
+                        res.append(PathOut(pre + [ev_none] + d.events, d.exit, d.val, d.label, e))
+            else:   # or_else
+                res.append(PathOut(pre + [ev_some], "fall", X, None, e))
+                for o in body_paths(args[0]):
+                    self._budget()
+                    res.append(PathOut(pre + [ev_none] + o.events, o.exit, o.val, o.label, e))
         return res
 
     def callee_name(self, e):
@@ -582,7 +652,7 @@ class Enumerator:
                 continue
             v = o.val + "?"
             inner = peel(e["e"])
-            if inner.get("k") == "MethodCall" and inner.get("name") in _CHECKED and len(inner.get("args") or []) == 1:
+            if inner.get("k") == "MethodCall" and (inner.get("name") in _CHECKED or inner.get("name") == "get") and len(inner.get("args") or []) == 1:
                 v = self.c(e)
             res.append(PathOut(o.events + [Ev("try-ok", o.val, node=e)], "fall", v, valnode=e))
             res.append(PathOut(o.events + [Ev("try-err", o.val, node=e)], "try-err", o.val))
@@ -860,8 +930,8 @@ def subst_lets(text, lets, rounds=4):
     return text
 
 
-def enum_paths(node, ren=None, max_paths=40000):
-    en = Enumerator(ren, max_paths)
+def enum_paths(node, ren=None, max_paths=40000, combinators=False):
+    en = Enumerator(ren, max_paths, combinators=combinators)
     return en.expr(node)
 
 
